@@ -15,6 +15,8 @@ int bcmp(const void*, const void*, size_t); void* memchr(const void*, int, size_
 #include <string.h>
 #include <stdlib.h>
 #endif
+/* byte loops instead of CBMC's array-level memcpy model: a variable-size copy into part of a struct otherwise destroys field sensitivity */
+char* vp_memcpy(char* d, char* s, uint64_t n); char* vp_memmove(char* d, char* s, uint64_t n); char* vp_memset(char* d, uint8_t c, uint64_t n);
 extern int __vp_exc; extern char* __vp_exc_obj; extern char* __vp_exc_ti;
 #ifdef VP_NATIVE
 void vp_native_model_assert(int c, const char* m);
